@@ -710,6 +710,9 @@ func (x *Exec) execStmt(s ast.Stmt, env *Env, label string) *Env {
 				}
 			}
 			sc := x.scopeAt(env, s.Pos())
+			for i, v := range vals {
+				sc.locals[fmt.Sprintf("$ret%d", i)] = v // the values being returned: $ret0, $ret1, ...
+			}
 			ord := x.returnOrdinal(s)
 			for i, c := range x.cx.fc.AtReturn {
 				if (c.Ordinal > 0 && c.Ordinal != ord) || (c.Ordinal == 0 && !success) {
